@@ -92,8 +92,13 @@ func (Builder) Generate(seed uint64, tier string) engine.Plan {
 		}
 		// ascending relative positions inside [0,size)
 		if op.Size > 0 {
-			dens := r.PickInt(0, 1, 2, 8, 64)
-			if dens > 0 {
+			dens := r.PickInt(0, 1, 2, 8, 64, -2)
+			if dens == -2 {
+				// exactly alternating bits
+				for q := int32(r.Intn(2)); q < op.Size; q += 2 {
+					op.Pos = append(op.Pos, q)
+				}
+			} else if dens > 0 {
 				for q := int32(0); q < op.Size; q++ {
 					if r.Intn(dens) == 0 || (q == op.Size-1 && r.Chance(1, 3)) || (q == 0 && r.Chance(1, 3)) {
 						op.Pos = append(op.Pos, q)
